@@ -266,7 +266,7 @@ class DULServiceProvider(threading.Thread):
         # type: () -> bool
         # There is something to read
         try:
-            data = self.dul_socket.recv(self.max_pdu_length)
+            data = self.dul_socket.recv(self.max_pdu_length or 65536)
         except socket.error:
             self.event.append(fsm.Events.EVT_17)
             self.dul_socket.close()
